@@ -78,6 +78,13 @@ def composition(r):
         if r.random() < 0.5:
             return "num_enums_ref", [{"$ref": "#/definitions/Scale"}, b]
         return "num_enums", [a, b]
+    if k < 0.78:
+        # const next to type / enum / const, on either side of the merge
+        vals = ["a", "b", "c"]
+        c1 = {"const": r.choice(vals)}
+        other = r.choice([{"type": "string"}, {"type": "string", "enum": r.sample(vals, 2)}, {"const": r.choice(vals)},
+                          {"type": "string", "minLength": 1}])
+        return "consts", [other, c1] if r.random() < 0.5 else [c1, other]
     if k < 0.8:
         return "types", [{"type": r.choice([["string", "integer"], ["integer", "null"], "integer"])},
                          {"type": r.choice([["integer", "boolean"], "integer", ["string", "null"]])}]
